@@ -52,7 +52,17 @@ def monC04 (h : Hist) : Option String :=
     let x ← h.ex ri
     if h.contentFaultUpTo ri.n then none else
     if !(x.servedUnvalidated h) then none else
-    let (m, _) ← x.token
+    let (m0, _) ← x.token
+    -- the request the stored response was last obtained or CONFIRMED for: the exchange that last wrote the
+    -- entry that was read (a 304 confirms the stored response for the validating request — which matters
+    -- when that 304 changes the Vary field and the response is stored anew for that request); else the
+    -- exchange that fetched the body
+    let m := match x.entry with
+      | some e => (h.evs.foldl (fun acc ev => match ev with
+          | .store s => if s.op == "set" && s.result == "ok" && s.key = e.id && s.n < ri.n &&
+                           (match s.val with | .ent _ _ => true | _ => false) then some s.n else acc
+          | _ => acc) none).getD m0
+      | none => m0
     let rm ← h.reqOf m
     let storedHdr := match x.entry with
       | some e => e.resp.header
@@ -133,8 +143,11 @@ def monC08 (h : Hist) : Option String :=
         -- freshening: the entry is written back with merged fields, same body, new timestamps
         let want := Spec.merge304 canonicalHeaderKey e.resp.header
           (match timeOfDate h rp.resp.header c.t1 with | hd => hd)
+        -- a 304 that changes the Vary field: the merged response is stored anew (under the identifier of what it
+        -- now varies on, which need not be the old one); otherwise it is written back under its own identifier
+        let varyChanged := joinWith [',', ' '] (Header.values want sVary) ≠ joinWith [',', ' '] (Header.values e.resp.header sVary)
         match stores.findSome? (fun s => match s.op, s.val with
-            | "set", .ent en _ => if s.key = e.id then some (s, en) else none
+            | "set", .ent en _ => if s.key = e.id || varyChanged then some (s, en) else none
             | _, _ => none) with
         | none =>
           -- a background revalidation may legitimately skip the write-back when the entry was replaced meanwhile
@@ -185,9 +198,14 @@ def monC08Resurrect (h : Hist) : Option String :=
           match recvOf m k with
           | none => go r held
           | some t =>
+            -- … unless the origin CONFIRMED it since: the write is caused by a reply (a 304) to a request that
+            -- was sent after the held representation had arrived
+            let confirmed := match (h.calls s.n s.stream).getLast? with
+              | some c => if c.outcome == "resp" then max t c.t0 else t
+              | none => t
             match alookup s.key held with
             | some (m', k', t') =>
-              if (m', k') ≠ (m, k) && t < t' then
+              if (m', k') ≠ (m, k) && confirmed < t' then
                 some s!"exchange {s.n} ({s.stream}): wrote the representation received in exchange {m} (at {t}) back under {shw s.key}, over the newer one received in exchange {m'} (at {t'})"
               else go r (ainsert s.key (m, k, t) held)
             | none => go r (ainsert s.key (m, k, t) held)
